@@ -45,7 +45,9 @@ def doc_pool(rng, n):
     def num(a, b):
         return str(rng.range(a, b))
     while len(docs) < n:
-        k = rng.below(20)
+        k = rng.below(23)
+        if k >= 20:
+            k = 5
         if k == 0:
             d = '<svg><rect wh="%s %s" text="t%s"/></svg>' % (num(1, 40), num(1, 40), num(0, 99))
         elif k == 1:
@@ -57,7 +59,12 @@ def doc_pool(rng, n):
         elif k == 4:   # var limit dependent
             d = '<svg><var v="%s"/><text xy="0" text="$v"/></svg>' % ('x' * rng.range(3, 30))
         elif k == 5:   # theme / class dependent
-            d = '<svg><rect wh="%s" class="%s"/></svg>' % (num(4, 20), rng.choice(['d-fill-red', 'd-dash', 'd-softshadow', 'd-text-bigger d-fill-blue']))
+            # pattern / arrow / shadow classes pull theme-dependent definitions in; the theme is often chosen in the document
+            # itself so that the same class is rendered under different themes by one process, whatever the front-end
+            th = rng.choice(['', '', '<config theme="dark"/>', '<config theme="light"/>', '<config theme="bold"/>', '<config theme="glass"/>'])
+            d = '<svg>%s<rect wh="%s" class="%s"/></svg>' % (th, num(4, 20), rng.choice(
+                ['d-fill-red', 'd-dash', 'd-softshadow', 'd-text-bigger d-fill-blue', 'd-grid', 'd-grid', 'd-hatch-5', 'd-stipple', 'd-crosshatch-10',
+                 'd-grid-h', 'd-arrow', 'd-hardshadow', 'd-grid-10']))
         elif k == 6:   # real SVG: passes through
             d = '<svg xmlns="http://www.w3.org/2000/svg" width="%s" height="10"><rect width="3" height="%s"/></svg>' % (num(5, 50), num(1, 9))
         elif k == 7:
@@ -95,7 +102,7 @@ CFG_CHOICES = [
     {}, {}, {}, {'seed': 1}, {'seed': 2}, {'seed': 12345678901}, {'add_auto_styles': False}, {'add_auto_styles': False, 'seed': 7},
     {'border': 0}, {'border': 17}, {'scale': 2.5}, {'add_metadata': True}, {'add_metadata': True}, {'loop_limit': 3},
     {'loop_limit': 6, 'add_auto_styles': False}, {'var_limit': 10}, {'depth_limit': 3}, {'depth_limit': 5, 'add_metadata': True},
-    {'theme': 'dark'}, {'theme': 'bold', 'background': 'red'}, {'background': 'grey'}, {'font_size': 5}, {'font_family': 'serif'},
+    {'theme': 'dark'}, {'theme': 'light'}, {'theme': 'dark', 'seed': 3}, {'theme': 'bold', 'background': 'red'}, {'background': 'grey'}, {'font_size': 5}, {'font_family': 'serif'},
     {'svg_style': 'margin: 1px'}, {'debug': True},
 ]
 HTTP_CFGS = [{}, {'add_metadata': True}]
